@@ -107,7 +107,7 @@ def pUInput : P (Bytes × List (Bytes × Bytes × Bytes × Bool)) := do
   let vals ← list (do let n ← str; let v ← str; let e ← str; let b ← bool; pure (n, v, e, b))
   pure (pat, vals)
 
-def pUObs : P Reverse.Spec.Obs := do
+def pUObs : P Reverse.Obs := do
   let k ← tok
   if k == "E" then pure .error
   else if k == "O" then do
@@ -119,7 +119,7 @@ def pUObs : P Reverse.Spec.Obs := do
     else failure
   else failure
 
-def encUObs : Reverse.Spec.Obs → String
+def encUObs : Reverse.Obs → String
   | .error => "E"
   | .notRequestURI u => "O " ++ encStr u ++ " B"
   | .notRouted u => "O " ++ encStr u ++ " M 404"
@@ -127,14 +127,8 @@ def encUObs : Reverse.Spec.Obs → String
     "O " ++ encStr u ++ s!" T {ps.length}" ++ String.join (ps.map fun (n, v) => " " ++ encStr n ++ " " ++ encStr v)
 
 /-- the model's observation of a round-trip case -/
-def modelU (pat : Bytes) (vals : List (Bytes × Bytes × Bytes × Bool)) : Reverse.Spec.Obs :=
-  let vs : Reverse.Vals := vals.map fun (n, v, e, _) => (n, v, e)
-  match Reverse.buildURL pat vs, Reverse.seenPath pat vs with
-  | some url, some seen =>
-    (match Reverse.matchRoute pat seen with
-     | some ps => .routedBack url ps
-     | none => .notRouted url)
-  | _, _ => .error
+def modelU (pat : Bytes) (vals : List (Bytes × Bytes × Bytes × Bool)) : Reverse.Obs :=
+  Reverse.roundTrip pat (vals.map fun q => (q.1, q.2.1, q.2.2.1))
 
 def stepU (id : String) (inp obs : List String) : String :=
   match runP pUInput inp, runP pUObs obs with
